@@ -246,7 +246,7 @@ class AngularTree:
         ang_max: NDArray,
         *,
         weight_scale: float | None = None,
-        weight_res: int = 50,
+        weight_res: int | None = 50,
     ) -> NDArray[np.float64]:
         """
         Count the nubmer of neighbours with another tree.
@@ -266,11 +266,13 @@ class AngularTree:
                 counts by the angular separation to the power of this value.
             weight_res:
                 The number of angular bins to use to approximate the weighting
-                by separation.
+                by separation (default is used if ``None``).
 
         Returns:
             Pair counts between pairs of lower and upper angular limits.
         """
+        if weight_res is None:
+            weight_res = 50  # resolution is optional in the configuration
         ang_limits = parse_ang_limits(ang_min, ang_max)
         ang_bins = get_ang_bins(ang_limits, weight_scale, weight_res)
         cumulative = len(ang_bins) < 8  # approx. turnover in processing speed
